@@ -408,6 +408,31 @@ class Gen:
             o.append("  return r;")
             o.append("}")
             self.constelem_roots.append((li.ident, arrs))
+        # views returned by cursor accessors of a MUTABLE view through a CONST cursor (plain and the three wrappers) must be const-byte views:
+        # code 0 = expression not valid, 1 = valid and the returned view is mutable (forbidden), 2 = valid and const, 3 = valid, byte type unknown
+        self.constview_roots = []
+        seenv = set()
+        for li in self.levels:
+            if li.kind == "composite":
+                continue
+            vm = [(i, m) for i, m in self.wire_members(li) if m["mkind"] in ("group", "data")]
+            if not vm:
+                continue
+            for i, m in vm:
+                if m["name"] not in seenv:
+                    seenv.add(m["name"])
+                    o.append("template<typename V, typename A> auto sbv_cv_%s(int) -> decltype(sbv::view_code<decltype(std::declval<V>().%s(std::declval<A>()))>(0));" % (m["name"], m["name"]))
+                    o.append("template<typename V, typename A> std::integral_constant<int, 0> sbv_cv_%s(long);" % m["name"])
+            o.append("struct KW_%s { %s char pad_; };" % (li.ident, " ".join("unsigned char c%d[4]; unsigned char m%d;" % (i, i) for i, m in vm)))
+            o.append("KW_%s r_%s_constviews() {" % (li.ident, li.ident))
+            o.append("  KW_%s r{};" % li.ident)
+            for i, m in vm:
+                for k, W in enumerate(["CC&", "W_init", "W_dm", "W_idm"]):
+                    o.append("  r.c%d[%d] = decltype(sbv_cv_%s<%s, %s>(0))::value;" % (i, k, m["name"], li.cpp, W))
+                o.append("  r.m%d = decltype(sbv_cv_%s<%s, MC&>(0))::value;" % (i, m["name"], li.cpp))
+            o.append("  return r;")
+            o.append("}")
+            self.constview_roots.append((li.ident, vm))
         # view / cursor conversions: only towards more-const byte types
         o.append("struct KV { bool to_const[%d]; bool from_const[%d]; bool cur_to_const; bool cur_from_const; };" % (max(1, len(self.levels)), max(1, len(self.levels))))
         o.append("KV r_conversions() {")
